@@ -1,8 +1,10 @@
 """C10 - contract sandbox: read-your-writes, exact range scans, sound and replayable read/write set.
 
 (1) TLC model-checks spec/Sandbox.tla (IDEAL) through spec/MC_Sandbox.tla: every sequence of
-    Get / Put / Del / Select(bounds, early stop) (/ Transfer) over every backing state (live, deleted,
-    never written) until the reachable state space is exhausted, against: the mechanism's answers are
+    Get / Put / Del / Select(bounds, early stop) (/ Transfer(from, to, amount): senders holding utxos of
+    different amounts and one holding nothing, amounts from zero to above the holdings, the reader handing
+    out free utxos in any order) over every backing state (live, deleted, never written) until the
+    reachable state space is exhausted, against: the mechanism's answers are
     the semantic ones (ReadYourWrites, ScanExact), the read set covers what was observed and what was
     written (ReadSetSound, ScanReadsWhatItSaw) and the replay over the read set alone reproduces every
     result (ReplayReproduces, by lock-step replay with a prophecy of the final read set).
@@ -54,7 +56,7 @@ def exercise(behs):
     """Counts of the interesting situations in the programs that were executed."""
     c = {"programs": len(behs), "scans": 0, "scans_own_delete_in_range": 0, "scans_backing_deleted_in_range": 0,
          "scans_read_missing_key_in_range": 0, "scans_early_stop": 0, "scans_edge_bounds": 0,
-         "read_your_write_reads": 0, "reads_after_own_delete": 0, "transfers_ok": 0, "put_after_del": 0}
+         "read_your_write_reads": 0, "reads_after_own_delete": 0, "put_after_del": 0}
     for b in behs:
         bk = {(e["b"], e["n"]): e["st"] for e in b[0]["bk"]}
         last = {}       # key -> last own write ("D" or value)
@@ -75,8 +77,6 @@ def exercise(behs):
             elif o["op"] == "del":
                 last[k] = "D"
                 read.add(k)
-            elif o["op"] == "transfer":
-                c["transfers_ok"] += o["res"] == "ok"
             elif o["op"] == "select":
                 c["scans"] += 1
                 lo, hi = o["lo"], o["hi"]
@@ -117,12 +117,17 @@ def check(run):
     core = {"EdgeBounds": "FALSE", "Limits": "{1, 2, 9}"}
     edge = {"EdgeBounds": "TRUE", "Limits": "{0, 9}"}
     wide = {"N1": 4, "N2": 2, "EdgeBounds": "FALSE", "Limits": "{1, 3, 9}"}
+    # transfer-heavy programs: few keys, so that most calls are transfers (every sender incl. one that holds nothing,
+    # amounts from zero to above the holdings: failing and succeeding transfers interleaved in one execution)
+    utxo = {"N1": 1, "N2": 0, "NT": 1, "EdgeBounds": "FALSE", "Limits": "{9}", "NU": 2, "TW": 24}
     if quick:
-        plans = [(450, 8, core), (250, 6, edge), (100, 8, wide)]
+        plans = [(450, 8, core), (250, 6, edge), (100, 8, wide), (150, 8, utxo), (100, 10, dict(utxo, NU=3))]
         mcs = [("MC_Sandbox.cfg", 900), ("MC_Sandbox_utxo.cfg", 600)]
     else:
-        plans = [(3000, 10, core), (1500, 8, edge), (1200, 12, wide), (600, 16, dict(core, NU=4))]
-        mcs = [("MC_Sandbox_thorough.cfg", 1500), ("MC_Sandbox.cfg", 900), ("MC_Sandbox_utxo.cfg", 600)]
+        plans = [(3000, 10, core), (1500, 8, edge), (1200, 12, wide), (600, 16, dict(core, NU=4)),
+                 (1500, 10, utxo), (800, 14, dict(utxo, NU=3))]
+        mcs = [("MC_Sandbox_thorough.cfg", 1500), ("MC_Sandbox.cfg", 900), ("MC_Sandbox_utxo.cfg", 600),
+               ("MC_Sandbox_utxo_thorough.cfg", 1200)]
     if os.environ.get("VERIF_C10_SKIP_MC"):      # self-test aid only (mutant loops): the design check does not read /repo
         run.assumptions.append("MODEL CHECK SKIPPED (VERIF_C10_SKIP_MC)")
         mcs = []
@@ -150,6 +155,17 @@ def check(run):
         if run.violations:
             break
     c = exercise(allb)
+    # what the transfers of the FIRST run on the real code did (the node's reader hands out utxos in an order of its own,
+    # so the generated results do not count)
+    real = {}
+    sf = os.path.join(run.work, "go", "c10_stats.ndjson")
+    if os.path.exists(sf):
+        for line in open(sf):
+            for k, v in json.loads(line).items():
+                real[k] = real.get(k, 0) + v
+    for k in sorted(real):
+        if k.startswith("transfers_"):
+            run.cov["real_" + k] = real[k]
     run.cov["programs_replayed_over_read_set"] = run.cov.get("traces_validated_against_impl", 0)
     run.cov["known_deviations_enabled"] = sorted(kf)
     run.samples = [[{k: v for k, v in o.items() if k not in ("dv", "need")} for o in b] for b in allb[:2]]
@@ -160,7 +176,11 @@ def check(run):
         "R6: never-written and deleted keys inside a scanned range are not demanded in the read set (a read set of "
         "versioned keys cannot name a key the scan never saw); 'not found' and 'marked deleted' are one result class",
         "programs are straight-line (results do not steer later calls); values written are non-empty and differ "
-        "from the delete marker; all utxos of the paying account have the same amount",
+        "from the delete marker",
+        "transfers: two senders holding 0-4 utxos of different amounts and one holding nothing, amounts 0..above the "
+        "holdings; which free utxos of the sender the node's reader hands out, and in which order, is left open (any "
+        "distinct free utxos covering the amount), the replay has to take exactly the recorded ones; frozen utxos and "
+        "utxos locked by other executions are not driven",
     ]
     run.finish(require={
         "programs": (c["programs"], 300),
@@ -173,5 +193,13 @@ def check(run):
         "read_your_write_reads": (c["read_your_write_reads"], 30),
         "reads_after_own_delete": (c["reads_after_own_delete"], 5),
         "put_after_del": (c["put_after_del"], 5),
-        "transfers_ok": (c["transfers_ok"], 20),
+        "transfers_ok": (real.get("transfers_ok", 0), 100),
+        "transfers_ok_several_inputs": (real.get("transfers_ok_several_inputs", 0), 20),
+        "transfers_ok_with_change": (real.get("transfers_ok_with_change", 0), 20),
+        "transfers_failed_lack_of_funds": (real.get("transfers_failed_lack_of_funds", 0), 50),
+        "transfers_failed_zero_amount": (real.get("transfers_failed_zero_amount", 0), 20),
+        "transfers_failed_unknown_sender": (real.get("transfers_failed_unknown_sender", 0), 50),
+        "transfers_ok_after_failed_same_sender": (real.get("transfers_ok_after_failed_same_sender", 0), 30),
+        "transfers_ok_after_failed_other_sender": (real.get("transfers_ok_after_failed_other_sender", 0), 30),
+        "transfers_failed_after_ok_same_sender": (real.get("transfers_failed_after_ok_same_sender", 0), 20),
     })
